@@ -206,7 +206,7 @@ def write_violation(pid, n, kind, unit, f, repo, work, seed, cfg):
         if ck not in _oracle_cache:
             _oracle_cache[ck] = run_oracles(groups, repo, work, seed)
         fails, out = _oracle_cache[ck]
-        mine = [x for x in fails if pid in x.get("props", [])]
+        mine = [x for x in fails if pid in x.get("props", []) or any(pid in registry.IMPLIES.get(tg, ()) for tg in x.get("props", []))]
         # an input that merely re-observes a recorded open finding is not a counterexample for this obligation
         try:
             with open(os.path.join(ROOT, "known_findings.json")) as kf:
